@@ -215,5 +215,5 @@ func runR08_7(c *kit.Ctx) {
 			c.OK("R08.7", key, posOf(pl.ins), "the placed item's index is assigned before the function returns, the loop iterates, the index is read or another list function runs")
 		}
 	}
-	c.Floor("R08.7", "placements of an address item into a []*peerAddr", n, 3)
+	c.Floor("R08.7", "placements of an address item into a []*peerAddr", n, 2)
 }
